@@ -3053,6 +3053,18 @@ impl<'a> Model<'a> {
         #[cfg(ironcalc_verif)]
         crate::verif::phase1::record(n, restart_count, retry);
 
+        if retry {
+            // The restart bound was reached (circular spill dependency): the last pass stopped
+            // at the anchor that was moved. Evaluate the remaining anchors in the current order
+            // (a no-op for those already evaluated in this pass) so that every spill area is
+            // written before phase 2; otherwise a regular cell that precedes an unrelated
+            // anchor in natural order would read that anchor's area before it is spilled.
+            for i in 0..self.spill_cells.len() {
+                let spill_cell = self.spill_cells[i];
+                self.evaluate_cell(spill_cell);
+            }
+        }
+
         // Phase 2: evaluate everything else; spill cells are already Evaluated and skipped.
         // Fallback when max restarts is exceeded (circular spill dependency).
         let all_cells = self.get_all_cells();
